@@ -22,6 +22,7 @@ type record struct {
 	Start int64    `json:"start_ns"`
 	End   int64    `json:"end_ns"`
 	Pid   int      `json:"pid"`
+	Out   string   `json:"stdout_hex,omitempty"` // general directives only: what was written to stdout
 }
 
 func main() {
@@ -35,7 +36,7 @@ func main() {
 		}
 	}
 	directive := "ok"
-	if m := regexp.MustCompile(`STUB:([a-z0-9=]+)`).FindStringSubmatch(script); m != nil {
+	if m := regexp.MustCompile(`STUB:([a-z0-9=,]+)`).FindStringSubmatch(script); m != nil {
 		directive = m[1]
 	}
 	sleep := 0
@@ -67,6 +68,61 @@ func main() {
 			}
 		}
 	}
+	// general form `o=<none|issues1|issues3|garbage|partial>,t=<exit0|exit1|exit3|kill>`: output first, then termination
+	if strings.HasPrefix(directive, "o=") {
+		parts := strings.SplitN(directive, ",t=", 2)
+		var out string
+		switch strings.TrimPrefix(parts[0], "o=") {
+		case "issues1", "issues3":
+			n := 1
+			if parts[0] == "o=issues3" {
+				n = 3
+			}
+			if json_ {
+				var items []string
+				for i := 0; i < n; i++ {
+					items = append(items, fmt.Sprintf(`{"file":"-","line":%d,"endLine":%d,"column":%d,"endColumn":%d,"level":"warning","code":%d,"message":"stub issue %d.","fix":null}`, i+2, i+2, i+1, i+2, 2000+i, i))
+				}
+				out = "[" + strings.Join(items, ",") + "]\n"
+			} else {
+				for i := 0; i < n; i++ {
+					out += fmt.Sprintf("<stdin>:%d:%d: stub issue %d\n", i+1, i+1, i)
+				}
+			}
+		case "garbage":
+			out = "this is not JSON\n"
+		case "partial":
+			if json_ {
+				out = `[{"file":"-","line":2,"endLine":2,"column":1,"endCol`
+			} else {
+				out = "<stdin>:1:1: stub issue 0\n<stdin>:2:2: stub iss"
+			}
+		}
+		rec := record{Args: os.Args[1:], Stdin: hex.EncodeToString(in), Start: start, End: time.Now().UnixNano(), Pid: os.Getpid(), Out: hex.EncodeToString([]byte(out))}
+		b, _ := json.Marshal(rec)
+		if p := os.Getenv("VERIF_STUB_LOG"); p != "" {
+			if f, err := os.OpenFile(p, os.O_APPEND|os.O_CREATE|os.O_WRONLY, 0o644); err == nil {
+				f.Write(append(b, '\n'))
+				f.Close()
+			}
+		}
+		os.Stdout.WriteString(out)
+		os.Stdout.Sync()
+		term := "exit0"
+		if len(parts) == 2 {
+			term = parts[1]
+		}
+		switch term {
+		case "kill":
+			syscall.Kill(os.Getpid(), syscall.SIGKILL)
+			time.Sleep(time.Second)
+		case "exit1":
+			os.Exit(1)
+		case "exit3":
+			os.Exit(3)
+		}
+		return
+	}
 	switch {
 	case directive == "ok":
 		logRec()
@@ -83,6 +139,13 @@ func main() {
 		os.Exit(2) // non-zero without output
 	case directive == "kill":
 		logRec()
+		syscall.Kill(os.Getpid(), syscall.SIGKILL)
+		time.Sleep(time.Second)
+	case directive == "killissues":
+		// complete output first (one issue: valid JSON / a complete <stdin> line), then killed by a signal
+		logRec()
+		issues(1)
+		os.Stdout.Sync()
 		syscall.Kill(os.Getpid(), syscall.SIGKILL)
 		time.Sleep(time.Second)
 	case directive == "garbage":
